@@ -95,7 +95,7 @@ SHAPES = {
 SHAPE_TEXT = '; pool of 3 commands in 1-2 groups, <= 2 variables each (all types/access modes, data_size 1..4), names <= 2 bytes over all byte values, every flag and handler subset, event queue capacity %d; all object scalars symbolic under Inv'
 
 
-def L1(kind, state, shape, ring=1, tiers=('quick', 'thorough'), timeout=900, props=None):
+def L1(kind, state, shape, ring=1, tiers=('quick', 'thorough'), timeout=1800, props=None):
     sh = SHAPES[shape]
     if kind == 'at':
         defs = ['JOB_STATE=CAT_STATE_' + state]
@@ -112,7 +112,7 @@ def L1(kind, state, shape, ring=1, tiers=('quick', 'thorough'), timeout=900, pro
         base += [p for p in extra if p not in base]
     return {'id': jid, 'props': base, 'harness': 'l1_step.c', 'enforce': enforce, 'replace': replace, 'loop_contracts': False,
             'defines': defs + sh['defines'] + ['CAT_UNSOLICITED_CMD_BUFFER_SIZE=%d' % ring], 'expect': ['postcondition'], 'label': 'shape-bounded',
-            'timeout': timeout, 'replay': None, 'cbmc_flags': ['--unwind', str(sh['unwind']), '--unwinding-assertions', '--object-bits', '10'], 'tiers': list(tiers),
+            'timeout': 2700 if state == 'PRINT_CMD' else timeout, 'replay': None, 'cbmc_flags': ['--unwind', str(sh['unwind']), '--unwinding-assertions', '--object-bits', '10'], 'tiers': list(tiers),
             'shape': sh['text'] + SHAPE_TEXT % ring}
 
 
